@@ -78,6 +78,7 @@ var Queries = map[string]string{
 	"qa":   "{ items { id v } n }",
 	"qb":   "{ thing { __typename ... on P { id name } ... on R { id size } } opt { id v } }",
 	"qf":   "{ items { v } flaky }",
+	"qg":   "{ grid { id v } n }", // a list of lists of keyed objects: rows of the items, two per row
 	"qbad": "{ nope }",
 	"qm":   "mutation { bump }",
 }
@@ -269,6 +270,18 @@ func (h *harness) schema() *graphql.Schema {
 		w, err := h.world(ctx)
 		return w.Items, err
 	})
+	q.FieldFunc("grid", func(ctx context.Context) ([][]*Item, error) {
+		w, err := h.world(ctx)
+		grid := [][]*Item{}
+		for i := 0; i < len(w.Items); i += 2 {
+			j := i + 2
+			if j > len(w.Items) {
+				j = len(w.Items)
+			}
+			grid = append(grid, w.Items[i:j])
+		}
+		return grid, err
+	})
 	q.FieldFunc("n", func(ctx context.Context) (int64, error) {
 		w, err := h.world(ctx)
 		return w.N, err
@@ -451,7 +464,7 @@ func runScenario(seed int64, scn int, maxSubs int) ([]Event, bool) {
 	go func() { c.ServeJSONSocket(); close(served) }()
 
 	ids := []string{"1", "2", "3", ""}
-	qs := []string{"qa", "qa", "qb", "qf", "qf", "qbad"}
+	qs := []string{"qa", "qa", "qb", "qf", "qf", "qbad", "qg", "qg"}
 	n := 3 + r.Intn(8)
 	var script []scriptMsg
 	for i := 0; i < n; i++ {
